@@ -166,6 +166,10 @@ SubVals(fr, n) == IF fr.f = "wild" THEN (IF IsArr(n) THEN n.a ELSE IF IsObj(n) T
 FilterTrue(f, e) ==
   CASE f.op = "eqnull" -> HasKey(e, f.key) /\ Member(e, f.key) = [z |-> 0]
     [] f.op = "nenull" -> ~(HasKey(e, f.key) /\ Member(e, f.key) = [z |-> 0])
+    \* the element itself compared (true on null / scalar / container elements as the documented semantics say: values of
+    \* different kinds are unequal, != is the complement): "nes" `@ != c`, "nek" `@.k != c` (a missing member is Nothing, unequal to c)
+    [] f.op = "nes" -> e # f.c
+    [] f.op = "nek" -> ~(HasKey(e, f.key) /\ Member(e, f.key) = f.c)
     [] f.op = "eqnothing" -> ~HasKey(e, f.key)
     [] f.op = "nenothing" -> HasKey(e, f.key)
     [] f.op = "mm" -> HasKey(e, f.ka) /\ HasKey(e, f.kb) /\
